@@ -1,5 +1,6 @@
 import KoordVerif.Common.Proto
 import KoordVerif.Model.C11
+import KoordVerif.Model.C11Rounds
 /-
 Driver for C11.  A case is a list of declaration lines followed by one command line.
 
@@ -17,6 +18,14 @@ Driver for C11.  A case is a list of declaration lines followed by one command l
  output: one `info <id> <evictPrio> <prio> <labelPrio> <used> <request>` per selected pod in eviction order
          (pods with equal sort keys are listed by id), then `end`
    tgt <capacity> <used> <threshold> <hasLower> <lower> <buffer>   ->  `tgt none` | `tgt <amount>`
+
+ harness `rounds` (several KillAndEvictPods rounds against the real Evictor + DefaultEvictionExecutor):
+   xcfg <onlyAPI> <started> <ttl>   fresh executor (empty evicted-cache)
+   task … / script <n> <0|1>*n      this round's tasks and the outcomes of the successive eviction API calls
+   round <now>
+ output: `evict <task> <pod> <ok>` per Evict call, `rel …`, `newly <0|1>`, `api <number of API calls>`,
+         `done <task> <0|1>` per task (EvictTaskCheck)
+   iscached <now> <pod>*            ->  `cached <pod>*`  (IsPodEvicted, in the given order)
 -/
 namespace KoordVerif.C11
 open KoordVerif.Proto
@@ -34,6 +43,7 @@ structure Acc where
   isev   : List Nat := []
   script : List Bool := []
   pods   : List Pod := []
+  exec   : Option Exec := none
 
 def parseTask (xs : List Int) : Option Task :=
   match xs with
@@ -86,6 +96,25 @@ def runKill (a : Acc) : List String :=
   let rel := sortBy cmpRel (keys.map fun k => (k, get st.released k))
   calls ++ (rel.filter (·.2 ≠ 0)).map (fun kv => s!"rel {kv.1.1} {kv.1.2} {kv.2}")
     ++ [s!"newly {b2i st.newly}"]
+
+def showCalls (st : St) : List String :=
+  st.logRev.reverse.filterMap fun ev =>
+    match ev.kind with
+    | .ok => some s!"evict {ev.task} {ev.e.pod} 1"
+    | .fail => some s!"evict {ev.task} {ev.e.pod} 0"
+    | .pending => none
+
+def showRel (st : St) : List String :=
+  let keys := (st.released.map (·.1)).eraseDups
+  let rel := sortBy cmpRel (keys.map fun k => (k, get st.released k))
+  (rel.filter (·.2 ≠ 0)).map (fun kv => s!"rel {kv.1.1} {kv.1.2} {kv.2}")
+
+def runRoundOp (a : Acc) (x : Exec) (now : Int) : List String × Exec :=
+  let tasks := a.tasks.reverse
+  let s := runRound x { now := now, script := a.script, tasks := tasks }
+  let dones := (List.range tasks.length).filterMap fun i =>
+    tasks[i]?.map fun t => s!"done {i} {b2i (taskDone t s.st.released)}"
+  (showCalls s.st ++ showRel s.st ++ [s!"newly {b2i s.st.newly}", s!"api {s.api}"] ++ dones, s.x)
 
 /-- list pods of equal sort key (adjacent, since the list is sorted) by id. -/
 def canonRuns (same : Info → Info → Bool) : List Info → List Info → List Info
@@ -151,6 +180,22 @@ def runCase (lines : List String) : List String :=
             | some p => go { a with pods := p :: a.pods } out rest
             | none => out ++ ["bad-op"]
           | "kill" => if xs.isEmpty then go {} (out ++ runKill a) rest else out ++ ["bad-op"]
+          | "xcfg" =>
+            match xs with
+            | [api, started, ttl] =>
+              go { a with exec := some { onlyAPI := api ≠ 0, started := started ≠ 0, ttl := ttl, cache := [] } } out rest
+            | _ => out ++ ["bad-op"]
+          | "round" =>
+            match xs, a.exec with
+            | [now], some x =>
+              let (o, x') := runRoundOp a x now
+              go { exec := some x' } (out ++ o) rest
+            | _, _ => out ++ ["bad-op"]
+          | "iscached" =>
+            match xs, a.exec with
+            | now :: ps, some x =>
+              go a (out ++ [" ".intercalate ("cached" :: (ps.filter (fun p => x.isEvicted now p.toNat)).map toString)]) rest
+            | _, _ => out ++ ["bad-op"]
           | "selprio" | "selbemem" | "selbecpu" => go a (out ++ runSel a xs kind) rest
           | "tgt" => go a (out ++ runTgt xs) rest
           | _ => out ++ ["bad-op"]
